@@ -3,6 +3,7 @@ package main
 import (
 	"encoding/json"
 	"fmt"
+	"sort"
 	"strings"
 	"sync"
 
@@ -21,6 +22,9 @@ type DiffMeta struct {
 	Assert  bool         `json:"assert,omitempty"` // load the program with assertz/1 instead of Exec
 	Family  string       `json:"family,omitempty"`
 	QVars   []int64      `json:"qvars"` // the variables that are compared (default: all 0..NVars-1)
+	// Unordered: answers are compared as a multiset (used where the property leaves the order of
+	// solutions open, e.g. the order of bagof/setof groups); only for runs the reference completed.
+	Unordered bool `json:"unordered,omitempty"`
 }
 
 // qvars returns the ids of the compared query variables.
@@ -262,6 +266,14 @@ func compareRun(d *DiffMeta, o *ref.Outcome, out *run.Outcome, compareEvents boo
 		r.Observed.(map[string]interface{})["events"] = gotEv
 	}
 	n := len(exp)
+	if d.Unordered {
+		if o.OutOfBudget || len(exp) > max {
+			r.Status, r.Msg = Inconclusive, "unordered comparison needs a complete reference run"
+			return r
+		}
+		sort.Strings(exp)
+		sort.Strings(got)
+	}
 	prefix := o.OutOfBudget
 	if prefix {
 		// compare only the answers (and events) the reference produced before running out of budget
